@@ -138,8 +138,8 @@ def run_dense(case, acc, order):
                                 try:
                                     if expl is not None:
                                         kw['channel_ids'] = expl
-                                    if not unwhiten:
-                                        kw['unwhiten'] = False      # True is the default: left out
+                                    if not unwhiten or t % 2:
+                                        kw['unwhiten'] = unwhiten   # True is the default: left out for even t
                                     rec = m.get_template(t, **kw)
                                 except Exception as e:
                                     rec = e
